@@ -241,3 +241,84 @@ func VerifC17RoundTrip() {
 	}
 	rt.Reach("c17rt.done")
 }
+
+// VerifC17Order: the listing the writer (next file name, retention) and the searcher (file walk) rely
+// on is in roll order — by date, then by roll number compared as a number — for any three files of a
+// day or two, and the next file name continues the latest day's numbering.
+func VerifC17Order() {
+	rt.MemFS()
+	nums := []int{0, 1, 2, 9, 10, 11, 100}
+	dates := []string{"2023-11-14", "2023-11-15"}
+	type fl struct {
+		date, n int
+		name    string
+	}
+	var fs []fl
+	for len(fs) < 3 {
+		f := fl{date: rt.Choice(2), n: nums[rt.Choice(len(nums))]}
+		dup := false
+		for _, g := range fs {
+			if g.date == f.date && g.n == f.n {
+				dup = true
+			}
+		}
+		if dup {
+			return
+		}
+		f.name = "/d/app-metrics.log." + dates[f.date]
+		if f.n > 0 {
+			f.name = f.name + "." + verifItoa(f.n)
+		}
+		rt.ModelOsCreate(f.name)
+		rt.ModelOsCreate(f.name + MetricIdxSuffix)
+		fs = append(fs, f)
+	}
+	got, err := listMetricFiles("/d", "app-metrics.log")
+	rt.Reach("c17.order")
+	rt.Assert(err == nil && len(got) == 3, "the listing holds exactly the data files")
+	if len(got) != 3 {
+		return
+	}
+	key := func(name string) int {
+		for _, f := range fs {
+			if f.name == name {
+				return f.date*1000 + f.n
+			}
+		}
+		return -1
+	}
+	rt.Assert(key(got[0]) >= 0 && key(got[0]) < key(got[1]) && key(got[1]) < key(got[2]), "metric files are listed in roll order: by date, then by roll number as a number")
+	// the next file of the latest day continues its numbering
+	last, maxN, has := 0, 0, false
+	for _, f := range fs {
+		if f.date > last {
+			last = f.date
+		}
+	}
+	for _, f := range fs {
+		if f.date == last {
+			has = true
+			if f.n > maxN {
+				maxN = f.n
+			}
+		}
+	}
+	w := &DefaultMetricLogWriter{baseDir: "/d", baseFilename: "app-metrics.log", maxSingleSize: 100, maxFileAmount: 50, mux: new(sync.RWMutex)}
+	ts := uint64(1699920000000) + uint64(last)*86400000 + 3600000 // inside dates[last], UTC
+	next, err := w.nextFileNameOfTime(ts)
+	if has {
+		rt.Assert(err == nil && next == "/d/app-metrics.log."+dates[last]+"."+verifItoa(maxN+1), "the next file name continues the numbering of its day")
+	}
+}
+
+func verifItoa(n int) string {
+	if n == 0 {
+		return "0"
+	}
+	s := ""
+	for n > 0 {
+		s = verifIDs[26:] + string("0123456789"[n%10:n%10+1]) + s
+		n /= 10
+	}
+	return s
+}
